@@ -7,12 +7,18 @@
    the history has no header at or above the current height and records positive DOSC speeds) and stated
    bounds (height <= 3*10^6 so the inflator is in closed form, mint difficulties <= 40, and the inputs of a
    transaction sum to less than 2^128 per denomination - the supply bound of the property).
+   [C09_seal_never_panics]: seal returns a state, never a panic, for every proposer action, on every state that
+   satisfies the invariants proved elsewhere for reachable states - C20's invariant (so that removing a deposit
+   output cannot underflow a count), built-in pools that are live and cannot be drained by the block's withdrawals
+   (C16) - and the stated bounds (block height below TIP-909 + 128 million, so the subsidy shift is below 128; fee
+   pool, tips and the MEL/SYM reserve together below 2^128 - the supply bound of the property).
    NOT proved (checked on the real code by the harness: every call runs under catch_unwind, in debug builds -
-   overflow checks on - and the model's Panic outcomes are compared with the real ones): totality of seal and
-   apply_block over whole histories.  Not covered by any theorem: allocation failure, stack depth, and the
+   overflow checks on - and the model's Panic outcomes are compared with the real ones): totality of
+   apply_block (a composition of the two) over whole histories.  Not covered by any theorem: allocation failure, stack depth, and the
    internals of the dependency crates (their panic behaviour is part of the oracles). *)
 From MelVerif Require Import STF.Model VM.Exec STF.Proofs.Pool STF.Proofs.Counts STF.Proofs.Total STF.Proofs.Supply
-  STF.Proofs.HashFacts STF.Proofs.NoPanicBatch STF.Proofs.Witness.
+  STF.Proofs.HashFacts STF.Proofs.NoPanicBatch STF.Proofs.Witness STF.Proofs.SealLift STF.Proofs.SealInv STF.Proofs.SealCounts
+  STF.Proofs.History STF.Proofs.SealTotal STF.Proofs.Witness5 STF.Proofs.Witness6.
 Open Scope N_scope.
 
 Theorem C09_covenants_terminate : forall O prog hp, run O prog hp <> OutOfFuel.
@@ -73,3 +79,72 @@ Proof.
   split; [exact w_hash_ok|]. split; [intros h hd E; cbn [s_history w_state] in E; rewrite lookup_empty in E; discriminate|]. split; [vm_compute; discriminate|].
   intros t Ht d pid E. cbn in Ht. destruct Ht as [<-|[<-|[<-|[]]]]; discriminate.
 Qed.
+
+(* ---- sealing.  [builtin k]: one of the three built-in pools; [named s k]: a pool the block can touch;
+   [live p]: both reserves and the recorded liquidity are >= 1; [Good]: C20's invariant (Properties/C20.v). *)
+Theorem C09_builtin_def : forall k, builtin k <-> k = poolkey_new Mel Sym \/ k = poolkey_new Mel Erg \/ k = poolkey_new Erg Sym.
+Proof. exact builtin_def. Qed.
+Print Assumptions C09_builtin_def.
+Theorem C09_named_def : forall s k, named s k <-> builtin k \/ exists t, In t (sorted_txs s) /\ tx_pool t = Some k.
+Proof. exact named_def. Qed.
+Print Assumptions C09_named_def.
+Theorem C09_live_def : forall p, live p <-> 1 <= p_lefts p /\ 1 <= p_rights p /\ 1 <= p_liqs p.
+Proof. exact live_def. Qed.
+Print Assumptions C09_live_def.
+
+(* each settlement phase is total: every pool a request names is ready when its turn comes *)
+Theorem C09_swaps_total : forall s,
+  NoDup (map poolkey_code (pool_keys_sorted (List.filter (is_swap_request s) (sorted_txs s)))) ->
+  exists s', process_swaps s = Ok s'.
+Proof. exact process_swaps_total. Qed.
+Print Assumptions C09_swaps_total.
+
+Theorem C09_deposits_total : forall SO s,
+  Good s -> NoDup (map poolkey_code (pool_keys_sorted (List.filter (is_deposit_request s) (sorted_txs s)))) ->
+  exists s', process_deposits SO s = Ok s' /\ Good s'.
+Proof. exact process_deposits_total. Qed.
+Print Assumptions C09_deposits_total.
+
+Theorem C09_withdrawals_total : forall SO s,
+  NoDup (map poolkey_code (pool_keys_sorted (List.filter (is_withdraw_request SO s) (sorted_txs s)))) ->
+  exists s', process_withdrawals SO s = Ok s'.
+Proof. exact process_withdrawals_total. Qed.
+Print Assumptions C09_withdrawals_total.
+
+Theorem C09_peg_total : forall s,
+  (exists sm, get_pool s (poolkey_new Mel Sym) = Some sm /\ 1 <= p_lefts sm /\ 1 <= p_rights sm) ->
+  (tip_902 s = true -> exists es, get_pool s (poolkey_new Erg Sym) = Some es /\ 1 <= p_lefts es /\ 1 <= p_rights es) ->
+  (tip_902 s = false -> exists me, get_pool s (poolkey_new Mel Erg) = Some me /\ 1 <= p_lefts me /\ 1 <= p_rights me) ->
+  exists s', process_pegging s = Ok s'.
+Proof. exact process_pegging_total. Qed.
+Print Assumptions C09_peg_total.
+
+(* the whole seal, for every proposer action *)
+Theorem C09_seal_never_panics : forall SO s,
+  (* PoolKey::to_bytes is injective on the pools the block can touch *)
+  (forall k1 k2, named s k1 -> named s k2 -> poolkey_code k1 = poolkey_code k2 -> k1 = k2) ->
+  (* C20's invariant *)
+  Good s ->
+  (* C16: the built-in pools that exist are live, and the block's withdrawals ask for less than they recorded *)
+  (forall k p, builtin k -> get_pool s k = Some p -> live p) ->
+  (forall k, builtin k -> forall s2 s3 p3,
+     process_swaps (create_builtins s) = Ok s2 -> process_deposits SO s2 = Ok s3 -> get_pool s3 k = Some p3 ->
+     sat_sum (map (fun t => cd_value (out0 t)) (txs_for_pool (List.filter (is_withdraw_request SO s3) (sorted_txs s3)) k)) < p_liqs p3) ->
+  (* bounds *)
+  (s_height s - TIP_909_HEIGHT) / 1000000 < 128 ->
+  (forall s1 sm, preseal_melmint SO s = Ok s1 -> get_pool s1 MS = Some sm -> s_fee_pool s + p_lefts sm + s_tips s < U128) ->
+  forall a, exists s', seal SO s a = Ok s'.
+Proof. exact seal_total. Qed.
+Print Assumptions C09_seal_never_panics.
+
+(* the hypotheses hold together on a concrete state (after the batch of STF/Proofs/Witness.v) *)
+Example C09_seal_witness :
+  (forall k1 k2, named w_s1 k1 -> named w_s1 k2 -> poolkey_code k1 = poolkey_code k2 -> k1 = k2) /\
+  Good w_s1 /\
+  (forall k p, builtin k -> get_pool w_s1 k = Some p -> live p) /\
+  (forall k, builtin k -> forall s2 s3 p3,
+     process_swaps (create_builtins w_s1) = Ok s2 -> process_deposits w_oracle s2 = Ok s3 -> get_pool s3 k = Some p3 ->
+     sat_sum (map (fun t => cd_value (out0 t)) (txs_for_pool (List.filter (is_withdraw_request w_oracle s3) (sorted_txs s3)) k)) < p_liqs p3) /\
+  (s_height w_s1 - TIP_909_HEIGHT) / 1000000 < 128 /\
+  (forall s1 sm, preseal_melmint w_oracle w_s1 = Ok s1 -> get_pool s1 MS = Some sm -> s_fee_pool w_s1 + p_lefts sm + s_tips w_s1 < U128).
+Proof. exact w_seal_total_hypotheses. Qed.
